@@ -356,6 +356,18 @@ pub fn cli(thorough: bool, seed: u64) -> Report {
     for (name, t) in planted() {
         inputs.push((format!("planted:{name}"), t.into_bytes()));
     }
+    // deeply nested / chained inputs: the parser and every pass over the tree are recursive
+    {
+        let n = 6000;
+        inputs.push(("planted:deep:parentheses".into(), format!("cmd {}a{};\n", "(".repeat(n), ")".repeat(n)).into_bytes()));
+        inputs.push(("planted:deep:optionals-in-alternatives".into(), format!("cmd {}a{};\n", "(x [".repeat(n / 2), "] | y)".repeat(n / 2)).into_bytes()));
+        let mut chain = String::from("cmd <A0>;\n");
+        for k in 0..30000 {
+            chain.push_str(&format!("<A{k}> ::= x <A{}>;\n", k + 1));
+        }
+        chain.push_str("<A30000> ::= y;\n");
+        inputs.push(("planted:deep:definition-chain".into(), chain.into_bytes()));
+    }
     let mut rng = Rng::new(seed.wrapping_add(99));
     let n_valid = if thorough { 400 } else { 60 };
     let n_mut = if thorough { 3000 } else { 300 };
@@ -450,7 +462,10 @@ pub fn cli(thorough: bool, seed: u64) -> Report {
             }
         }
         if let Some((kind, why)) = bad {
-            let class = if why.contains("overflowed its stack") || kind == "killed-by-signal" {
+            let class = if (why.contains("overflowed its stack") || kind == "killed-by-signal") && inputs[i].0.starts_with("planted:deep:") {
+                // recorded finding D18: recursion depth follows the nesting depth of the input
+                "stack-overflow-on-input-nested-thousands-of-levels-deep".to_string()
+            } else if why.contains("overflowed its stack") || kind == "killed-by-signal" {
                 "stack-overflow-or-abort".to_string()
             } else if why.contains("panicked at") {
                 // panic site = file:line
@@ -469,6 +484,29 @@ pub fn cli(thorough: bool, seed: u64) -> Report {
             });
         }
     }
+    // a destination that cannot be written (device full): exit 1 + diagnostic, never exit 0
+    if std::path::Path::new("/dev/full").exists() {
+        for (k, g) in corpus.iter().step_by(corpus.len() / 3 + 1).take(3).enumerate() {
+            let text = g.print();
+            for sh in shells {
+                rep.cases += 1;
+                let r = run_cli(&bin, sh, text.as_bytes(), "/dev/full");
+                let ok = r.code == Some(1) && !r.stderr.trim().is_empty() && !r.stderr.contains("panicked");
+                if !ok {
+                    rep.violations.push(Violation {
+                        obligation: "C06.cli.exit_status".into(),
+                        what: format!("`complgen --{sh} /dev/full` on a valid input #{k}: exit {:?} although the script could not be written", r.code),
+                        input: J::obj(vec![("shell", J::s(sh)), ("input", J::s(&text)), ("destination", J::s("/dev/full"))]),
+                        expected: J::s("exit 1 + diagnostic when the script cannot be written"),
+                        actual: J::s(format!("exit {:?}; stderr: {}", r.code, r.stderr.chars().take(300).collect::<String>())),
+                        signature: "C06.cli.exit_status|write-failure-not-reported".into(),
+                        replay_args: vec!["c06_cli".into(), sh.to_string(), text.clone(), "/dev/full".into()],
+                    });
+                }
+            }
+        }
+        kinds.insert("unwritable-destination".into());
+    }
     rep.distinct_nontrivial = kinds.len() as u64 + inputs.len() as u64 / 4;
     rep.samples.push(J::Arr(kinds.iter().map(J::s).collect()));
     rep
@@ -479,8 +517,12 @@ pub fn replay_cli(args: &[String]) -> i32 {
         println!("COMPLGEN_BIN not set");
         return 2;
     };
-    let r = run_cli(&bin, &args[0], args[1].as_bytes(), "-");
-    println!("input:\n{}\n--- exit: {:?} timed_out: {}\n--- stderr:\n{}", args[1], r.code, r.timed_out, r.stderr.chars().take(1500).collect::<String>());
+    let dest = args.get(2).map(|s| s.as_str()).unwrap_or("-");
+    let r = run_cli(&bin, &args[0], args[1].as_bytes(), dest);
+    println!("input:\n{}\n--- destination: {dest} exit: {:?} timed_out: {}\n--- stderr:\n{}", args[1].chars().take(2000).collect::<String>(), r.code, r.timed_out, r.stderr.chars().take(1500).collect::<String>());
+    if dest == "/dev/full" {
+        return if r.code == Some(1) && !r.stderr.trim().is_empty() { 0 } else { 1 };
+    }
     match r.code {
         Some(0) | Some(1) if !r.stderr.contains("panicked") => 0,
         _ => 1,
